@@ -1045,3 +1045,17 @@ func VIPPrelude() []Cmd {
 	}
 	return out
 }
+
+// GatewayPrelude: virtual-IP flags, a terminating-gateway config entry linking two services and a
+// registered instance of that gateway - the situation in which the gateway advertises one virtual IP
+// per linked service.
+func GatewayPrelude() []Cmd {
+	out := VIPPrelude()
+	e := &structs.TerminatingGatewayConfigEntry{Kind: structs.TerminatingGateway, Name: "tgw", Services: []structs.LinkedService{{Name: "web"}, {Name: "db"}}}
+	e.Normalize()
+	creq := structs.ConfigEntryRequest{Datacenter: "dc1", Op: structs.ConfigEntryUpsert, Entry: e}
+	out = append(out, Cmd{Type: structs.ConfigEntryRequestType, Class: "config:upsert:terminating-gateway", Desc: "config:upsert terminating-gateway/tgw " + core.JSON(e), Bytes: enc(structs.ConfigEntryRequestType, &creq)})
+	reg := structs.RegisterRequest{Datacenter: "dc1", Node: "n2", Address: "10.0.0.2", Service: &structs.NodeService{Kind: structs.ServiceKindTerminatingGateway, ID: "tgw", Service: "tgw", Port: 8443}}
+	out = append(out, mk(structs.RegisterRequestType, "register", &reg))
+	return out
+}
